@@ -341,10 +341,30 @@ def _exec(run, skips=()):
     env.update(SAN_ENV)
     env.update(run.env)
     t0 = time.time()
+    # VERIF_PREFLIGHT_CACHE=<dir>: developer aid only (never set by a registered command): the raw output of a run is kept per
+    # (binary content, arguments, environment of the run) so that several properties decided from the same deterministic executions
+    # (family A: one set of executions feeds C01..C11, C14) can be smoke-tested without executing them once per property
+    cdir, cfile, hit = os.environ.get("VERIF_PREFLIGHT_CACHE"), None, None
+    if cdir and run.stdin is None and not run.wrapper:
+        h = hashlib.sha256()
+        with open(run.build.path, "rb") as f:
+            h.update(f.read())
+        h.update(repr((run.args, sorted(run.env.items()), list(skips))).encode())
+        cfile = os.path.join(cdir, h.hexdigest()[:32] + ".json")
+        if os.path.exists(cfile):
+            with open(cfile) as f:
+                hit = json.load(f)
     try:
-        p = subprocess.run(run.cmdline(skips), capture_output=True, env=env, timeout=run.timeout,
-                           input=run.stdin)
-        rc, out, err, to = p.returncode, p.stdout, p.stderr, False
+        if hit is not None:
+            rc, out, err, to = hit["rc"], hit["out"].encode(), hit["err"].encode(), False
+        else:
+            p = subprocess.run(run.cmdline(skips), capture_output=True, env=env, timeout=run.timeout,
+                               input=run.stdin)
+            rc, out, err, to = p.returncode, p.stdout, p.stderr, False
+            if cfile:
+                os.makedirs(cdir, exist_ok=True)
+                with open(cfile, "w") as f:
+                    json.dump({"rc": rc, "out": out.decode("utf-8", "replace"), "err": err.decode("utf-8", "replace")}, f)
     except subprocess.TimeoutExpired as e:
         rc, out, err, to = None, e.stdout or b"", e.stderr or b"", True
     wall = time.time() - t0
